@@ -6,7 +6,7 @@
    [table_ok T] is a boolean; the harness evaluates it in Coq, on every run, on the texts of the linked Go
    package (cases_C16.v: live_table_ok), and below on the texts of the pinned tree. *)
 From Coq Require Import String NArith List Bool.
-From Verif Require Import Model.Proxy Proofs.ProxyProofs Check.ProxyCheck.
+From Verif Require Import Model.Proxy Model.ProxyMem Proofs.ProxyProofs Proofs.ProxyMemProofs Check.ProxyCheck.
 Import ListNotations.
 Open Scope string_scope.
 Open Scope list_scope.
@@ -135,6 +135,64 @@ Theorem C16_wrapped_anywhere_retrieve_full : forall T, table_ok T = true -> fora
 Proof. exact wrapped_anywhere_retrieve. Qed.
 Print Assumptions C16_wrapped_anywhere_retrieve_full.
 
+(* ==== THE CLIENT OVER GO'S SLICE MEMORY; SEQUENCES OF CALLS THAT RE-USE THE CALLER'S SLICE (Model/ProxyMem.v) ====
+   The theorems above see a call as a function of the blob sizes.  That is the code's behaviour only if the
+   client does not write to memory its caller still holds: block/submitter.go submitToDA marshals a batch once
+   and hands the same slice (after a partial success: a tail of it) to every attempt.  In Model/ProxyMem.v blobs
+   live in arrays of a heap, slices are (array, offset, length, capacity) windows, `append` writes in place while
+   the capacity lasts, and the client's loop is written with these operations ([h] any heap, [inp] any slice that
+   is a window of an existing array: [wf_slice]). *)
+
+(* ONE CALL: the helper's result and the sizes that reach the DA are those of the memory-less model above (so all
+   theorems above apply to it); every array that existed when the call began — the caller's batch among them —
+   holds afterwards what it held before (the client is a function of its arguments and does not write to them);
+   what reaches the DA is a prefix of the caller's blobs THEMSELVES (identities, not just sizes). *)
+Theorem C16_caller_blobs_untouched_full : forall T max (b : backend) cancelled h inp, wf_slice h inp ->
+  let r := proxied_submit_mem T max b cancelled h inp in
+  (fst (fst r), map (map bsize) (snd (fst r))) = proxied_submit T max b cancelled (map bsize (read h inp))
+  /\ (forall a, (a < length h)%nat -> arr (snd r) a = arr h a)
+  /\ (length h <= length (snd r))%nat
+  /\ (forall l, In l (snd (fst r)) -> exists k, l = firstn k (read h inp)).
+Proof. exact proxied_submit_mem_spec. Qed.
+Print Assumptions C16_caller_blobs_untouched_full.
+
+(* ANY SEQUENCE OF ATTEMPTS ON ONE SLICE (each: drop some leading blobs or none, then call; any backing-DA
+   behaviour per attempt, cancelled or not), of any length: it is answered call by call as the memory-less client
+   answers the blobs the caller MEANT to hand over ([spec_attempts]: computed from the batch as it was before the
+   first call); after every call the caller's array holds what it held before the first; whatever reaches the DA
+   at any attempt is a run of consecutive blobs of the original batch. *)
+Theorem C16_attempts_stateless_full : forall T max l h s, wf_slice h s ->
+  map sizes_of (proxied_attempts T max h s l) = spec_attempts T max (read h s) l
+  /\ Forall (fun x => snd x = arr h (s_addr s)) (proxied_attempts T max h s l)
+  /\ Forall (fun x => forall lg, In lg (snd (fst x)) -> exists j k, lg = firstn k (skipn j (read h s))) (proxied_attempts T max h s l).
+Proof. exact attempts_stateless. Qed.
+Print Assumptions C16_attempts_stateless_full.
+
+(* A RETRY WITH THE VERY SAME SLICE IS ANSWERED LIKE A FIRST CALL: every attempt gets the answer a first call
+   meeting that backing-DA behaviour gets (so two attempts that meet the same behaviour get the same answer) ... *)
+Theorem C16_retry_answered_alike_full : forall T max h s l, wf_slice h s -> (forall a, In a l -> a_skip a = 0%nat) ->
+  map sizes_of (proxied_attempts T max h s l)
+  = map (fun a => proxied_submit T max (a_back a) (a_cancel a) (map bsize (read h s))) l.
+Proof. exact retry_answered_alike. Qed.
+Print Assumptions C16_retry_answered_alike_full.
+
+(* ... in particular a batch the client refuses because a blob of it can never fit is refused at EVERY retry,
+   with nothing sent, whatever the backing DA would have answered. *)
+Theorem C16_too_big_every_retry_full : forall T max h s l, wf_slice h s -> (forall a, In a l -> a_skip a = 0%nat) ->
+  snd (filter_loop max 0 (map bsize (read h s))) = true ->
+  Forall (fun x => sizes_of x = (too_big_obs, [])) (proxied_attempts T max h s l).
+Proof. exact too_big_every_retry. Qed.
+Print Assumptions C16_too_big_every_retry_full.
+
+(* DIRECT = PROXIED OVER SEQUENCES: if every attempt, for the blobs the caller hands over at that attempt, is within
+   the hypotheses of C16_transparent_submit_full ([attempts_ok]: fits the client's limit, DA error in the domain,
+   empty-list proviso), the helper reports the same at every attempt through the proxy as in-process. *)
+Theorem C16_retry_transparent_full : forall T, table_ok T = true -> forall max h s l, wf_slice h s ->
+  attempts_ok T max (read h s) l ->
+  map obs_of (proxied_attempts T max h s l) = map obs_of (direct_attempts T h s l).
+Proof. exact retry_transparent. Qed.
+Print Assumptions C16_retry_transparent_full.
+
 (* ---- non-vacuity ---------------------------------------------------------------------------------------- *)
 (* the texts of the pinned tree (core/da/errors.go) *)
 Definition pinned_tbl : table :=
@@ -215,3 +273,29 @@ Example a_cut_text_loses_the_class :
   classify_submit (client_submit_err pinned_tbl cut) = StError
   /\ classify_submit (client_submit_err pinned_tbl (wire_err (server_err long_err))) = StNotIncluded.
 Proof. vm_compute. split; reflexivity. Qed.
+
+(* ---- memory: non-vacuity ------------------------------------------------------------------------------------ *)
+(* the caller's batch as the harness lays it out satisfies the hypothesis of the memory theorems *)
+Example caller_slice_wf : forall sizes, wf_slice (caller_heap sizes) (caller_slice sizes)
+                                        /\ read (caller_heap sizes) (caller_slice sizes) = batch sizes.
+Proof. intros; split; [apply caller_wf | apply caller_read]. Qed.
+
+(* [a; BIG; c] with limit 100, submitted three times with the same slice to a DA that would accept anything: too big
+   every time, nothing sent, and the caller's array is [a; BIG; c] after every attempt; then the caller drops two
+   blobs: [c] alone is sent and accepted *)
+Example retry_example :
+  let ok : backend := fun l => SRes (iota (length l)) 7 in
+  map (fun x => (so_code (fst (fst x)), map (map bid) (snd (fst x)), map bid (snd x)))
+      (proxied_attempts pinned_tbl 100 (caller_heap [10; 150; 20]%N) (caller_slice [10; 150; 20]%N)
+         [mk_attempt 0 ok false; mk_attempt 0 ok false; mk_attempt 0 ok false; mk_attempt 2 ok false])
+  = [(StTooBig, [], [0; 1; 2]%N); (StTooBig, [], [0; 1; 2]%N); (StTooBig, [], [0; 1; 2]%N); (StSuccess, [[2%N]], [0; 1; 2]%N)].
+Proof. vm_compute. reflexivity. Qed.
+
+(* why the memory matters: were the blobs that fit collected IN PLACE (blobsToSubmit := inputBlobs[:0] — NOT what line
+   149 does, [mem_filter_inplace]), the same loop would leave [a; c; c] in the caller's array while still answering
+   "too big", and the memory-less model would no longer describe a second call with that slice *)
+Example collecting_in_place_overwrites_the_caller :
+  let r := mem_filter_inplace 100 (caller_heap [10; 150; 20]%N) (caller_slice [10; 150; 20]%N) in
+  snd r = true /\ map bid (arr (fst (fst r)) 0) = [0; 2; 2]%N
+  /\ map bid (arr (fst (fst (mem_filter 100 (caller_heap [10; 150; 20]%N) (caller_slice [10; 150; 20]%N)))) 0) = [0; 1; 2]%N.
+Proof. vm_compute. repeat split; reflexivity. Qed.
